@@ -100,7 +100,7 @@ def register_providers(reg):
         modifies=["fresh"],
         ensures={
             "C07.only-while-open": "old(truthy(self.__key))",
-            "C08+C02+C19.method-concrete": "len(result) == 2 and (result[1] == 'aes' or result[1] == 'xor')",
+            "C08+C02+C03+C19.method-concrete": "len(result) == 2 and (result[1] == 'aes' or result[1] == 'xor')",
             "C08.resolution": "iff(result[1] == 'aes', method == 'aes' or (method == 'best' and AES_AVAILABLE)) and "
                               "implies(result[1] == 'xor', method == 'xor' or method == 'best')",
             "C08.provider-gets-key": "fresh(result[0]) and ite(result[1] == 'aes', typeis(result[0], 'ref:AesProvider') and result[0]._AesProvider__key == self.__key,"
@@ -116,8 +116,8 @@ def register_providers(reg):
 
 def register_xor(reg):
     xor_post = {
-        "C08+C02+C19.xor-length": "len(result) == len(as_bytes(text))",
-        "C08+C02+C19.xor-keystream": "forall('j:int', 'implies(0 <= j and j < len(result), xor_at(result, as_bytes(text), self.__key, j))')",
+        "C08+C02+C03+C19.xor-length": "len(result) == len(as_bytes(text))",
+        "C08+C02+C03+C19.xor-keystream": "forall('j:int', 'implies(0 <= j and j < len(result), xor_at(result, as_bytes(text), self.__key, j))')",
     }
     reg.contract(
         "encryption:XorProvider.encrypt", params={"text": "str|bytes"}, returns="bytes", noraise=True,
@@ -132,8 +132,8 @@ def register_xor(reg):
         "encryption:XorProvider.decrypt", params={"ciphertext": "bytes"}, returns="bytes", noraise=True,
         requires={"key-nonempty": "len(self.__key) > 0"}, modifies=["fresh"],
         ensures={
-            "C08+C02+C19.xor-length": "len(result) == len(ciphertext)",
-            "C08+C02+C19.xor-keystream": "forall('j:int', 'implies(0 <= j and j < len(result), xor_at(result, ciphertext, self.__key, j))')",
+            "C08+C02+C03+C19.xor-length": "len(result) == len(ciphertext)",
+            "C08+C02+C03+C19.xor-keystream": "forall('j:int', 'implies(0 <= j and j < len(result), xor_at(result, ciphertext, self.__key, j))')",
         })
 
 
@@ -143,15 +143,15 @@ def register_aes(reg):
         "encryption:AesProvider.encrypt", params={"text": "bytes"}, returns="bytes", noraise=True,
         modifies=["rand_ctr", "fresh"],
         ensures={
-            "C08+C02+C19.aes-standard-format": "result == %s + cbc_enc(self.__key, %s, pkcs7_pad(text))" % (IV, IV),
-            "C08+C02+C19.fresh-iv-per-call": "len(%s) == 16 and glob('rand_ctr') == old(glob('rand_ctr')) + 1" % IV,
+            "C08+C02+C03+C19.aes-standard-format": "result == %s + cbc_enc(self.__key, %s, pkcs7_pad(text))" % (IV, IV),
+            "C08+C02+C03+C19.fresh-iv-per-call": "len(%s) == 16 and glob('rand_ctr') == old(glob('rand_ctr')) + 1" % IV,
         })
     reg.contract(
         "encryption:AesProvider.decrypt", params={"ciphertext": "bytes"}, returns="bytes", modifies=["fresh"],
         ensures={
-            "C08+C02+C19.aes-accepts-only-wellformed": "len(ciphertext) >= 32 and (len(ciphertext) - 16) % 16 == 0",
-            "C08+C02+C19.aes-padding-checked": "pad_ok(cbc_dec(self.__key, ciphertext[:16], ciphertext[16:]))",
-            "C08+C02+C19.aes-decrypts-standard": "result == pkcs7_unpad(cbc_dec(self.__key, ciphertext[:16], ciphertext[16:]))",
+            "C08+C02+C03+C19.aes-accepts-only-wellformed": "len(ciphertext) >= 32 and (len(ciphertext) - 16) % 16 == 0",
+            "C08+C02+C03+C19.aes-padding-checked": "pad_ok(cbc_dec(self.__key, ciphertext[:16], ciphertext[16:]))",
+            "C08+C02+C03+C19.aes-decrypts-standard": "result == pkcs7_unpad(cbc_dec(self.__key, ciphertext[:16], ciphertext[16:]))",
         },
         raises={
             "C08.error-class": "exc_is(EncryptionError, ValueError)",
@@ -169,12 +169,12 @@ def register_keyfile_crypto(reg):
         modifies=["rand_ctr", "fresh"],
         ensures={
             "C07.only-while-open": "old(truthy(self.__key))",
-            "C08+C02+C19.method-concrete": "len(result) == 2 and (result.method == 'aes' or result.method == 'xor') and typeis(result.ciphertext, 'bytes')",
+            "C08+C02+C03+C19.method-concrete": "len(result) == 2 and (result.method == 'aes' or result.method == 'xor') and typeis(result.ciphertext, 'bytes')",
             "C08.method-resolution": "iff(result.method == 'aes', method == 'aes' or (method == 'best' and AES_AVAILABLE))",
-            "C08+C02+C19.xor-length": "implies(result.method == 'xor', len(result.ciphertext) == len(as_bytes(text)))",
-            "C08+C02+C19.xor-keystream": "implies(result.method == 'xor', forall('j:int', 'implies(0 <= j and j < len(result.ciphertext),"
+            "C08+C02+C03+C19.xor-length": "implies(result.method == 'xor', len(result.ciphertext) == len(as_bytes(text)))",
+            "C08+C02+C03+C19.xor-keystream": "implies(result.method == 'xor', forall('j:int', 'implies(0 <= j and j < len(result.ciphertext),"
                                  " xor_at(result.ciphertext, as_bytes(text), self.__key, j))'))",
-            "C08+C02+C19.aes-standard-format": "implies(result.method == 'aes', result.ciphertext == %s + cbc_enc(self.__key, %s, pkcs7_pad(as_bytes(text)))"
+            "C08+C02+C03+C19.aes-standard-format": "implies(result.method == 'aes', result.ciphertext == %s + cbc_enc(self.__key, %s, pkcs7_pad(as_bytes(text)))"
                                        " and len(%s) == 16 and glob('rand_ctr') == old(glob('rand_ctr')) + 1)" % (IV, IV, IV),
             "C07.key-untouched": keep,
         },
@@ -191,11 +191,11 @@ def register_keyfile_crypto(reg):
         ensures={
             "C07.only-while-open": "old(truthy(self.__key))",
             "C08.known-method": "secret.method == 'aes' or secret.method == 'xor' or secret.method == 'best'",
-            "C08+C02+C19.xor-length": "implies(secret.method == 'xor', len(result) == len(%s))" % CT,
-            "C08+C02+C19.xor-keystream": "implies(secret.method == 'xor', forall('j:int', 'implies(0 <= j and j < len(result),"
+            "C08+C02+C03+C19.xor-length": "implies(secret.method == 'xor', len(result) == len(%s))" % CT,
+            "C08+C02+C03+C19.xor-keystream": "implies(secret.method == 'xor', forall('j:int', 'implies(0 <= j and j < len(result),"
                                  " xor_at(result, as_bytes(secret.ciphertext), self.__key, j))'))",
-            "C08+C02+C19.aes-accepts-only-wellformed": "implies(secret.method == 'aes', len(%s) >= 32 and (len(%s) - 16) %% 16 == 0)" % (CT, CT),
-            "C08+C02+C19.aes-decrypts-standard": "implies(secret.method == 'aes', result == pkcs7_unpad(cbc_dec(self.__key, %s[:16], %s[16:])))" % (CT, CT),
+            "C08+C02+C03+C19.aes-accepts-only-wellformed": "implies(secret.method == 'aes', len(%s) >= 32 and (len(%s) - 16) %% 16 == 0)" % (CT, CT),
+            "C08+C02+C03+C19.aes-decrypts-standard": "implies(secret.method == 'aes', result == pkcs7_unpad(cbc_dec(self.__key, %s[:16], %s[16:])))" % (CT, CT),
             "C07.key-untouched": keep,
         },
         raises={
